@@ -41,9 +41,16 @@ pub fn build(case: &Value) -> Vec<u8> {
     let lenstore = case["lenstore"].as_str().unwrap();
     let mut d = Doc::new(b"");
     let mut e: Vec<(u64, XEntry)> = vec![(0, XEntry::Free { next: 0, gen: 65535 })];
-    let members: Vec<(u64, Vec<u8>)> = (1..=n).map(|j| (j as u64, text_of(kinds[j - 1], j))).collect();
+    let plain: Vec<Vec<u8>> = (1..=n).map(|j| text_of(kinds[j - 1], j)).collect();
+    // every member carries its own separator (sep[j] = 0: the next member follows directly)
+    let sepb: &[u8] = if idx % 2 == 0 { b"\n" } else { b" " };
+    let members: Vec<(u64, Vec<u8>)> = (1..=n).map(|j| {
+        let mut t = plain[j - 1].clone();
+        if case["sep"][j - 1].as_u64().unwrap() == 1 { t.extend_from_slice(sepb); }
+        (j as u64, t)
+    }).collect();
     // direct twin of the target member
-    let o = d.obj(8, 0, &members[idx - 1].1);
+    let o = d.obj(8, 0, &plain[idx - 1]);
     e.push((8, XEntry::InUse { off: o, gen: 0 }));
     // a raw integer for the "raw" length storage
     let o = d.obj(7, 0, b"11");
@@ -54,8 +61,8 @@ pub fn build(case: &Value) -> Vec<u8> {
     e.push((9, XEntry::InUse { off: o, gen: 0 }));
     let o = d.stream(6, 0, "/S 1", SDATA, None, false);
     e.push((6, XEntry::InUse { off: o, gen: 0 }));
-    let sepb: &[u8] = if idx % 2 == 0 { b"\n" } else { b" " };
-    let o = d.objstm(20, &members, filter, hdrsep, sepb, trail, "");
+    let _ = trail;
+    let o = d.objstm(20, &members, filter, hdrsep, b"", false, "");
     e.push((20, XEntry::InUse { off: o, gen: 0 }));
     for j in 1..=n {
         e.push((j as u64, XEntry::Compressed { container: 20, idx: j - 1 }));
